@@ -27,10 +27,10 @@ CONSTANTS MaxCalls,      \* calls per session
           MaxFaults,     \* faults per history
           Rollback       \* TRUE: the tree un-registers a member when archiving it raises (repaired tree)
 
-Kinds == {"writestr", "writef", "write"}
+Kinds == {"writestr", "writef", "write", "writedir"}     \* writedir: write() of a directory (an empty-stream member)
 (* where a call can fail.  pre-read faults: the source was never read *)
-PreFaults(k) == IF k = "write" THEN {"missing", "lstat", "open"} ELSE {"badname"}
-MidFaults(k) == IF k = "writestr" THEN {} ELSE {"read"}          \* read raises after k >= 0 bytes
+PreFaults(k) == IF k = "write" THEN {"missing", "lstat", "open"} ELSE IF k = "writedir" THEN {"missing", "lstat"} ELSE {"badname"}
+MidFaults(k) == IF k \in {"writestr", "writedir"} THEN {} ELSE {"read"}          \* read raises after k >= 0 bytes
 Faults(k) == PreFaults(k) \cup MidFaults(k)
 
 Unreadable == [ok |-> FALSE, m |-> <<>>]
@@ -59,15 +59,18 @@ Init == /\ sess = 0 /\ st = "closed" /\ arch = Ok(<<>>) /\ good = <<>> /\ tainte
 ---------------------------------------------------------------------------
 (* What a reader makes of an I-level header: the k-th file with a data stream owns the k-th substream entry. *)
 (* (All members of this module have data; empty-stream members are modelled in Header.tla.)                  *)
-Readback(fs, ss) == IF Len(fs) # Len(ss) THEN Unreadable
-                    ELSE Ok([i \in 1..Len(fs) |-> [n |-> fs[i].n, c |-> ss[i]]])
+(* Members without a data stream (es = TRUE) own no substream: directories read back with content id 0,    *)
+(* empty files of a preloaded archive with content id 1.  Ids of real data are >= 11.                      *)
+Rank(fs, i) == Cardinality({ j \in 1..i : ~fs[j].es })
+Readback(fs, ss) == IF Cardinality({ j \in 1..Len(fs) : ~fs[j].es }) # Len(ss) THEN Unreadable
+                    ELSE Ok([i \in 1..Len(fs) |-> [n |-> fs[i].n, c |-> IF fs[i].es THEN (IF fs[i].c = 1 THEN 1 ELSE 0) ELSE ss[Rank(fs, i)]]])
 
 ---------------------------------------------------------------------------
 (* open a create session (first) or an append session on what is on disk *)
 Open == /\ st = "closed" /\ sess < MaxSessions /\ arch.ok
         /\ sess' = sess + 1 /\ st' = "open"
-        /\ files' = [i \in 1..Len(arch.m) |-> [n |-> arch.m[i].n, c |-> arch.m[i].c]]      \* mode "a": header parsed from disk
-        /\ subs' = [i \in 1..Len(arch.m) |-> arch.m[i].c]
+        /\ files' = [i \in 1..Len(arch.m) |-> [n |-> arch.m[i].n, c |-> arch.m[i].c, es |-> arch.m[i].c <= 1]]      \* mode "a": header parsed from disk
+        /\ subs' = LET d == SelectSeq(arch.m, LAMBDA x : x.c > 1) IN [i \in 1..Len(d) |-> d[i].c]
         /\ widx' = Len(arch.m)                                                        \* Worker.__init__: len(files)
         /\ folder' = <<>> /\ tainted' = FALSE /\ ncalls' = 0
         /\ pc' = "idle" /\ call' = NoCall /\ exc' = "none"
@@ -97,7 +100,7 @@ Check == /\ pc = "check"
 
 (* header.files_info.files.append(file_info); self.files.append(file_info) *)
 Register == /\ pc = "register"
-            /\ files' = Append(files, [n |-> call.n, c |-> call.c])
+            /\ files' = Append(files, [n |-> call.n, c |-> call.c, es |-> call.k = "writedir"])
             /\ pc' = "archive"
             /\ UNCHANGED <<sess, st, arch, good, tainted, subs, widx, folder, call, exc, reads, ncalls, nfaults>>
 
@@ -105,7 +108,13 @@ Register == /\ pc = "register"
 Archive == /\ pc = "archive"
            /\ LET f == files[widx + 1]                       \* 0-based index widx
                   failing == (f.c = call.c /\ call.fault \in {"open", "read"}) \/ (f.c # call.c)   \* a stale cursor entry is a source that failed before
-              IN  /\ reads' = IF f.c \in DOMAIN reads THEN [reads EXCEPT ![f.c] = @ + 1] ELSE reads @@ (f.c :> 1)   \* open/read attempts per source
+              IN  IF f.es /\ f.c = call.c
+                  THEN \* a directory: nothing to read, only the cursor moves
+                       /\ widx' = widx + 1
+                       /\ good' = Append(good, [n |-> call.n, c |-> 0])
+                       /\ UNCHANGED <<reads, exc, tainted, files, subs, folder>>
+                  ELSE
+                  /\ reads' = IF f.c \in DOMAIN reads THEN [reads EXCEPT ![f.c] = @ + 1] ELSE reads @@ (f.c :> 1)   \* open/read attempts per source
                   /\ IF failing
                      THEN /\ exc' = IF f.c = call.c THEN call.fault ELSE "stale"
                           /\ folder' = IF f.c = call.c /\ call.fault = "read" THEN Append(folder, <<f.c, "partial">>) ELSE folder
@@ -137,7 +146,7 @@ Spec == Init /\ [][Next]_vars
 
 ---------------------------------------------------------------------------
 (* C15, first sentence: between calls the registration lists and the cursor agree - a failed call left nothing behind *)
-InStep == (st = "open" /\ pc = "idle") => (Len(files) = widx /\ Len(subs) = widx)
+InStep == (st = "open" /\ pc = "idle") => (Len(files) = widx /\ Len(subs) = Cardinality({ j \in 1..Len(files) : ~files[j].es }))
 
 (* the failed source is not retried behind the caller's back *)
 NoRetry == \A c \in DOMAIN reads : reads[c] <= 1
